@@ -3,6 +3,8 @@ import RaftVerif.Model.MP.Vote
 import RaftVerif.Model.Overlap
 import RaftVerif.Proofs.ElectionSV
 import RaftVerif.Proofs.Candidate
+import RaftVerif.Proofs.RefineVote
+import RaftVerif.Model.CampaignFault
 /-! # C01 — election safety.  Registered: `RP.election_safety` (cluster model, fixed membership, any
 size, all schedules / faults / crashes between vote writes), `MP.vote_once_per_term`,
 `OV.same_config_quorums_intersect`, `OV.adjacent_config_majorities_intersect`. -/
